@@ -5,11 +5,11 @@ V = os.path.dirname(os.path.dirname(os.path.abspath(__file__)))
 TECH = "static analysis: repo-specific rules over type-checked, callee-resolved MIR (rustc_private driver) - "
 CHECKS = {
  "C01": ("selection isolation, complete-only, +1 once, integer printing, 2n+1 shape form decided on all paths of read_site / Runner::run / Create::run", "dominance + field-sensitive dataflow over MIR; affine-form extraction", "4/C01"),
- "C02": ("exact/projectable/insufficient decision shape, argument roles down to hypergeometric_pmf, the weight as nine signed ln-factorial terms exponentiated once (log-space), every site outcome decided inside the projection / no-projection split, 2i+1 sibling agreement, validation before construction", "comparison-operator set over compared values; argument-role tracing; affine-form cross-check", "4/C02"),
+ "C02": ("exact/projectable/insufficient decision (per-axis facts established at each outcome), argument roles down to hypergeometric_pmf, the weight as nine signed ln-factorial terms exponentiated once (log-space), the factorial table read symbolically (entry i = entry i-1 * i for i = 1..MAX, ln taken once), ln_gamma(x + 1) beyond it with its x >= 0.5 branch read as the Lanczos expression over the reviewed constants, every site outcome decided inside the projection / no-projection split, 2i+1 sibling agreement, validation before construction", "comparison-operator set over compared values; argument-role tracing; affine-form cross-check", "4/C02"),
  "C03": ("NARROW: rejection of zero / larger / different-dimensional targets dominates construction (element-wise), Spectrum::project validates first and projects every (value, index) pair unconditionally into a zero result, add_unchecked = cell + projected * weight, hypergeometric building blocks incl. the log-space form of the weight (no binomial materialised as f64); the numerical identity and its laws are NOT decided", "dominance + operand-role tracing + loop-body unconditionality over MIR", "6/C03 and 11.2"),
  "C04": ("NARROW: the three rejections guard both unchecked calls, sorted-or-sorted-copy, ascending renumbering original - removed, Array::sum accumulates every view into a zero array of the remaining shape, remove list passed through a Vec only (no set/map on the way); that the sums are the array sums for all shapes is NOT decided", "edge dominance, adaptor-chain and closure-shape checks over MIR", "6/C04 and 11.2"),
  "C05": ("NARROW: fill table, fold().into_spectrum(fill), straight-line from_spectrum with one pass over (i, n-1-i), T = sum(len-1), mid = T/2, diagonal = T even, per-cell decision table Less/Equal/Greater x diagonal with exactly one store at i; index/mirror arithmetic for all shapes and the mass/idempotence/symmetry laws are NOT decided", "decision-table extraction and expression-shape comparison per arm over MIR", "6/C05 and 11.2"),
- "C06": ("CLI statistic -> library method -> estimator wiring (14+12 rows), D-statistic theta pairs, normalise-before-f typestate, guards before unchecked estimators", "match-table extraction; who-may-call; dominance; compile-fail witnesses (thorough)", "4/C06"),
+ "C06": ("CLI statistic -> library method -> estimator wiring (14+12 rows), D-statistic theta pairs, the default theta estimator as sum of weight(position, n) * value over the interior positions, the per-cell terms of F2/F3/F4 as expressions, Fst axis roles, normalise-before-f typestate, guards before unchecked estimators", "match-table extraction; who-may-call; dominance; compile-fail witnesses (thorough)", "4/C06"),
  "C07": ("writer/reader literal and table agreement for text and npy, to_le_bytes/from_le_bytes pairing, one detector and writer arm per format, auto-detection over whole input, every file opened for writing is created-or-truncated", "format-template decoding and table cross-check over MIR constants", "4/C07"),
  "C08": ("per-allele {0,1} bound before classification (information flow), missing/ploidy arms, single VCF/BCF funnel, totality, error reaches Err naming contig:position of the current record (BCF contig id through the IDX-aware string map)", "backward slicing per allele + dominating-branch value-set reasoning", "4/C08"),
  "C09": ("ordered containers, order-preserving API only, id = insertion index, single construction funnel, lookup by sample name, ids 0..len, error checks dominate construction", "typed call allow-list; dataflow slices; who-constructs", "4/C09"),
@@ -18,11 +18,11 @@ CHECKS = {
  "C12": ("hash order never observed, ambient inputs only at reviewed sites, threads has one sink and decides no branch, one construction funnel for transport/container, BGZF peeked with a multi-member decoder only", "typed call allow-lists; information-flow slice from `threads`", "4/C12"),
  "C13": ("marginalize < project < mask < normalize < write on every path, each step under its own option only, mask = first/last := 0.0, keep -> complement", "CFG reachability order, control dependence via edge dominance, idiom recognition", "4/C13"),
  "C14": ("f-statistics only on the normalised type, exactly {F2,F3,F4,Fst} normalise in the CLI, KING/R0/R1 cells exclude monomorphic cells, interior-only iteration", "typestate + match-table + constant-index extraction", "4/C14"),
- "C15": ("20-arm decoder table, dtype/endian/version tables agree, writer constants and emission order, padding has no must-fail path, Fortran/unknown dtype rejected", "table extraction from nested matches and nom combinator calls; constant propagation (definite-failure rule)", "4/C15"),
+ "C15": ("20-arm decoder table, dtype/endian/version tables agree, writer constants and emission order, padding = (-len) mod 64 and no must-fail path, Fortran/unknown dtype rejected", "table extraction from nested matches and nom combinator calls; constant propagation (definite-failure rule)", "4/C15"),
  "C16": ("only exact reads on the npy path, read-to-EOF loop exits, checked constructor on every read path, all tokens parsed, read dominates output", "call-graph reachability + typed call allow-list; loop-exit classification; dominance", "4/C16"),
  "C17": ("every panic-capable MIR site reachable from main is auto-discharged, contract-covered, reviewed or a recorded finding; closed caller sets for *_unchecked", "interprocedural may-panic inventory over MIR Assert terminators and a reviewed P-set; guard-dominance contracts", "4/C17"),
- "C18": ("no short-count I/O primitive anywhere, no discarded Result, fill_buf contents only tested for emptiness, whole-input reads, no BufWriter", "typed call inventory; Result-use discipline; forward flow from fill_buf", "4/C18"),
- "C19": ("Option-returning accessors contain no panic site, FusedIterator / ExactSizeIterator obligations of the 4 iterators, next/size_hint total", "may-panic inventory restricted to the array API; field-write analysis of None paths; size_hint slice", "4/C19"),
+ "C18": ("no short-count I/O primitive anywhere (forwarding Write impls excepted), no discarded Result, fill_buf contents only tested for emptiness (followed into the functions the bytes are handed to), every BufReader has a non-zero capacity, whole-input reads, no BufWriter", "typed call inventory; Result-use discipline; forward flow from fill_buf", "4/C18"),
+ "C19": ("Option-returning accessors contain no panic site, FusedIterator / ExactSizeIterator obligations of the 4 iterators (no write before None, every yield advances the guarded field), next/size_hint total", "may-panic inventory restricted to the array API; field-write analysis of None paths; size_hint slice", "4/C19"),
 }
 NA = {
  "C03x": "numerical identity of the projection operator (sum of products of hypergeometric pmfs), finiteness at large sizes and algebraic laws between evaluations: no clause is visible in the shape of the code beyond input validation (covered by C17 contracts) and the 2i+1 conversion (decided under C02.c); no sound static argument in reach bounds these values",
